@@ -40,7 +40,7 @@ class Result:
         self.notes.append(s)
 
 
-class TaskTimeout(Exception):
+class TaskTimeout(BaseException):  # not an Exception: harness code catching Exception around toqito calls must not swallow it
     pass
 
 
@@ -48,7 +48,7 @@ def _alarm(signum, frame):
     raise TaskTimeout()
 
 
-TASK_TIMEOUT_S = int(os.environ.get("VERIF_TASK_TIMEOUT", "90"))
+TASK_TIMEOUT_S = int(os.environ.get("VERIF_TASK_TIMEOUT", "60"))
 
 
 def _run(args):
